@@ -50,8 +50,43 @@ def liveA (s : State) (i : Nat) (f : Slot → List Nat) : List Nat :=
   | none => []
   | some sl => if sl.gone then [] else f sl
 
+/-- `Clone::clone` of an object (`cloneObj`): the clone's vector, or (locked forms) a freshly sized one -/
+def cloneObjA (c : Cfg) (o : Obj) : List Nat :=
+  match o.st with
+  | .plain => vecCloneA o.v
+  | .prot .unlocked .rw => vecCloneA o.v
+  | .prot .unlocked .ro => vecCloneA o.v
+  | .prot .locked .rw => if c.isArr then [] else lockedResizeA o.v.len
+  | .prot .locked .ro => if c.isArr then [] else lockedResizeA o.v.len
+  | .prot _ .na => []
+
+/-- `clonefrom`: one clone; for the locked forms the harness' probe clone first, and the real one only if the
+probe did not panic -/
+def cloneFromA (c : Cfg) (s : State) (i j : Nat) : List Nat :=
+  if j = i then [] else
+  match s.slots[i]?, s.slots[j]? with
+  | some d, some src =>
+    if d.gone || src.gone || decide (d.o.st ≠ src.o.st) then [] else
+    if isLockedSt src.o.st then
+      match cloneObj c s.m src.o with
+      | none => []
+      | some (_, none) => cloneObjA c src.o
+      | some (_, some _) => cloneObjA c src.o ++ cloneObjA c src.o
+    else cloneObjA c src.o
+  | _, _ => []
+
+/-- the `visit_seq` loop: one `resize(len + 1)` per element -/
+def seqFillA (c : Cfg) (b : UInt8) : Nat → Mach × PVec → List Nat
+  | 0, _ => []
+  | k + 1, r =>
+    vecResizeA r.2 (r.2.len + 1) ++
+      seqFillA c b k ((vecResize c r.1 r.2 (r.2.len + 1)).1, setV (vecResize c r.1 r.2 (r.2.len + 1)).2 r.2.len b)
+
+def opSerdeA (c : Cfg) (s : State) (json : Bool) (n : Nat) : List Nat :=
+  if json then (if c.isArr then newBytesA c else seqFillA c 0x5a n (s.m, PVec.empty)) else doFromSliceA c n
+
 /-- the sizes token `t` passes to `alloc` in state `s` (ghost; see the header) -/
-def stepAllocs (c : Cfg) (s : State) (t : Tok) : List Nat :=
+def stepAllocsCore (c : Cfg) (s : State) (t : Tok) : List Nat :=
   match t.op with
   | .new => opNewA c
   | .clone => liveA s t.idx fun sl =>
@@ -62,7 +97,7 @@ def stepAllocs (c : Cfg) (s : State) (t : Tok) : List Nat :=
       | .prot .locked .rw => if c.isArr then [] else lockedResizeA sl.o.v.len
       | .prot .locked .ro => if c.isArr then [] else lockedResizeA sl.o.v.len
       | .prot _ .na => []
-  | .resize n => liveA s t.idx fun sl =>
+  | .resize n _ => liveA s t.idx fun sl =>
       if c.isArr then [] else
       match sl.o.st with
       | .plain => vecResizeA sl.o.v n
@@ -75,7 +110,13 @@ def stepAllocs (c : Cfg) (s : State) (t : Tok) : List Nat :=
   | .genlocked => newBytesA c
   | .newrolocked => newBytesA c
   | .genrolocked => newBytesA c
+  | .clonefrom j => cloneFromA c s t.idx j
+  | .stacklock => if c.isArr then newBytesA c else []
+  | .serde json n => opSerdeA c s json n
   | _ => []
+
+/-- the sizes the harness token `t` (`step`: the release log is reset first) passes to `alloc` in state `s` -/
+def stepAllocs (c : Cfg) (s : State) (t : Tok) : List Nat := stepAllocsCore c (resetRel s) t
 
 /-! ### sizes of the release log, primitive by primitive (no hypothesis on `c.wipe`) -/
 
@@ -94,14 +135,15 @@ theorem sz_protDrop (c : Cfg) (m : Mach) (v : PVec) (lm : LM) (pm : PM) :
     sz (protDrop c m v lm pm) = sz m ++ capL v.cap := by
   unfold protDrop
   rw [sz_plainDrop]
-  by_cases h1 : pm = .rw <;> by_cases h2 : lm = .locked <;> simp [h1, h2, sz]
+  simp [sz]
+  rfl
 
 theorem sz_objDrop (c : Cfg) (m : Mach) (o : Obj) : sz (objDrop c m o) = sz m ++ capL o.v.cap := by
   unfold objDrop; split
   · exact sz_plainDrop c m _
   · exact sz_protDrop c m _ _ _
 
-theorem sz_lockV (c : Cfg) (m : Mach) (v : PVec) (pm : PM) :
+theorem sz_lockV (c : Cfg) (m : Mach) (v : PVec) (pm : LM × PM) :
     sz (lockV c m v pm).1 = sz m ++ (if (lockV c m v pm).2 = true then [] else capL v.cap) := by
   unfold lockV
   by_cases h : (dryocMlock c m (ptr c v) v.len).2 = true
@@ -127,8 +169,8 @@ owned after + released after = owned before + released before + allocated. -/
 def Bal (z : Nat) (O : List Nat) (m : Mach) (O' : List Nat) (m' : Mach) (A : List Nat) : Prop :=
   O'.count z + (sz m').count z = O.count z + (sz m).count z + A.count z
 
-theorem vecResize_bal (z : Nat) (c : Cfg) (m : Mach) (v : PVec) (n : Nat) :
-    Bal z (capL v.cap) m (capL (vecResize c m v n).2.cap) (vecResize c m v n).1 (vecResizeA v n) := by
+theorem vecResize_bal (z : Nat) (c : Cfg) (m : Mach) (v : PVec) (n : Nat) (b : UInt8 := 0) :
+    Bal z (capL v.cap) m (capL (vecResize c m v n b).2.cap) (vecResize c m v n b).1 (vecResizeA v n) := by
   unfold Bal vecResize vecResizeA
   by_cases h1 : n ≤ v.len
   · simp [h1]
@@ -158,7 +200,7 @@ theorem newBytes_bal (z : Nat) (c : Cfg) (m : Mach) :
     simpa [capL, Bal] using this
   · simp [h, Bal, capL]
 
-theorem lockV_bal (z : Nat) (c : Cfg) (m : Mach) (v : PVec) (pm : PM) :
+theorem lockV_bal (z : Nat) (c : Cfg) (m : Mach) (v : PVec) (pm : LM × PM) :
     Bal z (capL v.cap) m (if (lockV c m v pm).2 = true then capL v.cap else []) (lockV c m v pm).1 [] := by
   unfold Bal
   rw [sz_lockV]
@@ -182,19 +224,19 @@ theorem plainDrop_bal (z : Nat) (c : Cfg) (m : Mach) (v : PVec) :
 
 /-- resize of a locked region: on success the slot owns the new block and the old one is released; on
 failure (panic) the slot keeps the old block and the new one is released -/
-theorem lockedResize_bal (z : Nat) (c : Cfg) (m : Mach) (v : PVec) (n : Nat) :
+theorem lockedResize_bal (z : Nat) (c : Cfg) (m : Mach) (v : PVec) (rc : LM × PM) (n : Nat) (b : UInt8 := 0) :
     Bal z (capL v.cap) m
-      (match (lockedResize c m v n).2 with
+      (match (lockedResize c m v rc n b).2 with
        | some nv => capL nv.cap
        | none => capL v.cap)
-      (lockedResize c m v n).1 (lockedResizeA n) := by
-  have h1 := vecResize_bal z c m PVec.empty n
-  have h2 := lockV_bal z c (vecResize c m PVec.empty n).1 (vecResize c m PVec.empty n).2 .rw
+      (lockedResize c m v rc n b).1 (lockedResizeA n) := by
+  have h1 := vecResize_bal z c m PVec.empty n b
+  have h2 := lockV_bal z c (vecResize c m PVec.empty n b).1 (vecResize c m PVec.empty n b).2 recNew
   unfold Bal at *
   unfold lockedResize lockedResizeA
   have e0 : capL PVec.empty.cap = [] := rfl
   rw [e0] at h1
-  by_cases h : (lockV c (vecResize c m PVec.empty n).1 (vecResize c m PVec.empty n).2 .rw).2 = true
+  by_cases h : (lockV c (vecResize c m PVec.empty n b).1 (vecResize c m PVec.empty n b).2 recNew).2 = true
   · simp only [h, if_true, List.count_nil] at h1 h2 ⊢
     rw [sz_protDrop, List.count_append]
     simp only [writeV_cap]
@@ -232,7 +274,7 @@ theorem sbal_set (z : Nat) {s : State} {l1 l2 : List Slot} {sl : Slot} {i : Nat}
   omega
 
 theorem sbal_push (z : Nat) (s : State) (res : Res) (m' : Mach) (st : St) (v : PVec) (rnd : Bool)
-    (A : List Nat) (hb : Bal z [] s.m (capL v.cap) m' A) : SBal z s (res, push s m' st v rnd) A := by
+    (rc : LM × PM) (A : List Nat) (hb : Bal z [] s.m (capL v.cap) m' A) : SBal z s (res, push s m' st v rnd rc) A := by
   unfold SBal Bal at *
   simp only [push, capsOf_append, capsOf_cons, capsOf_nil, List.count_append, Bool.false_eq_true,
     if_false, List.count_nil] at *
@@ -274,10 +316,10 @@ section ops
 variable (z : Nat) (c : Cfg) {s : State} {l1 l2 : List Slot} {sl : Slot} {i : Nat}
 
 theorem sbal_doLock (hs : s.slots = l1 ++ sl :: l2) (hi : l1.length = i) (hg : sl.gone = false)
-    (pm : PM) : SBal z s (doLock c s i sl pm) [] := by
-  have h2 := lockV_bal z c s.m sl.o.v pm
+    (rc : LM × PM) (pm : PM) : SBal z s (doLock c s i sl rc pm) [] := by
+  have h2 := lockV_bal z c s.m sl.o.v rc
   unfold doLock
-  by_cases h : (lockV c s.m sl.o.v pm).2 = true
+  by_cases h : (lockV c s.m sl.o.v rc).2 = true
   · simp only [h, if_true] at h2 ⊢
     exact sbal_set z hs hi hg _ _ _ _ (by simpa [hg] using h2)
   · simp only [h, if_false, Bool.false_eq_true] at h2 ⊢
@@ -286,12 +328,12 @@ theorem sbal_doLock (hs : s.slots = l1 ++ sl :: l2) (hi : l1.length = i) (hg : s
 theorem sbal_doNewLocked (s : State) (m : Mach) (v : PVec) (src : Option Bytes) (ro rnd : Bool)
     (A : List Nat) (hb : Bal z [] s.m (capL v.cap) m A) :
     SBal z s (doNewLocked c s m v src ro rnd) A := by
-  have h2 := lockV_bal z c m v .rw
+  have h2 := lockV_bal z c m v recNew
   unfold doNewLocked
-  by_cases h : (lockV c m v .rw).2 = true
+  by_cases h : (lockV c m v recNew).2 = true
   · simp only [h, if_true] at h2 ⊢
     apply sbal_push
-    have hb' : Bal z [] s.m (capL v.cap) (lockV c m v .rw).1 A := by
+    have hb' : Bal z [] s.m (capL v.cap) (lockV c m v recNew).1 A := by
       unfold Bal at *
       simp only [List.count_nil] at *
       omega
@@ -304,11 +346,11 @@ theorem sbal_doNewLocked (s : State) (m : Mach) (v : PVec) (src : Option Bytes) 
 
 theorem sbal_doCloneLocked (s : State) (sl : Slot) (ro : Bool) :
     SBal z s (doCloneLocked c s sl ro) (lockedResizeA sl.o.v.len) := by
-  have h1 := lockedResize_bal z c s.m PVec.empty sl.o.v.len
+  have h1 := lockedResize_bal z c s.m PVec.empty (.locked, .rw) sl.o.v.len
   have e0 : capL PVec.empty.cap = [] := rfl
   rw [e0] at h1
   unfold doCloneLocked
-  cases hr : (lockedResize c s.m PVec.empty sl.o.v.len).2 with
+  cases hr : (lockedResize c s.m PVec.empty (.locked, .rw) sl.o.v.len).2 with
   | none =>
     rw [hr] at h1
     simp only [hr]
@@ -347,14 +389,14 @@ theorem sbal_opNew (s : State) : SBal z s (opNew c s) (opNewA c) := by
   · simp only [hl, if_true]
     by_cases ha : c.isArr = true
     · simp only [ha, if_true, List.append_nil]
-      exact sbal_push z s _ _ _ _ _ _ h1
+      exact sbal_push z s _ _ _ _ _ _ _ h1
     · have ha' : c.isArr = false := by simpa using ha
       rw [newBytes_nonarr c s.m ha'] at hl
       have hn : c.n = 0 := by simpa using hl.symm
       simp only [ha, if_false, Bool.false_eq_true, hn]
       have : vecResizeA PVec.empty 0 = [] := rfl
       rw [this, List.append_nil]
-      exact sbal_push z s _ _ _ _ _ _ h1
+      exact sbal_push z s _ _ _ _ _ _ _ h1
   · simp only [hl, if_false]
     by_cases ha : c.isArr = true
     · simp only [ha, if_true, List.append_nil]
@@ -388,8 +430,8 @@ theorem sbal_opLock (s : State) (i : Nat) : SBal z s (opLock c s i) [] := by
   apply sbal_withLive_nil
   intro sl l1 l2 hs hi hg
   split
-  · exact sbal_doLock z c hs hi hg _
-  · exact sbal_doLock z c hs hi hg _
+  · exact sbal_doLock z c hs hi hg _ _
+  · exact sbal_doLock z c hs hi hg _ _
   · exact sbal_refl z s _
 
 /-- replacing a slot by one with the same capacity and liveness, machine with the same log -/
@@ -461,18 +503,18 @@ theorem sbal_opClone (s : State) (i : Nat) :
   intro sl l1 l2 hs hi hg
   have hc := vecClone_bal z c s.m sl.o.v
   cases hst : sl.o.st with
-  | plain => exact sbal_push z s _ _ _ _ _ _ hc
+  | plain => exact sbal_push z s _ _ _ _ _ _ _ hc
   | prot lm pm =>
     cases lm <;> cases pm
-    · exact sbal_push z s _ _ _ _ _ _ hc
-    · exact sbal_push z s _ _ _ _ _ _ hc
+    · exact sbal_push z s _ _ _ _ _ _ _ hc
+    · exact sbal_push z s _ _ _ _ _ _ _ hc
     · exact sbal_refl z s _
     · exact sbal_cloneLocked_arr z c s sl true
     · exact sbal_cloneLocked_arr z c s sl false
     · exact sbal_refl z s _
 
-theorem sbal_opResize (s : State) (i n : Nat) :
-    SBal z s (opResize c s i n) (liveA s i fun sl =>
+theorem sbal_opResize (s : State) (i n : Nat) (b : UInt8 := 0) :
+    SBal z s (opResize c s i n b) (liveA s i fun sl =>
       if c.isArr then [] else
       match sl.o.st with
       | .plain => vecResizeA sl.o.v n
@@ -485,24 +527,24 @@ theorem sbal_opResize (s : State) (i n : Nat) :
   by_cases ha : c.isArr = true
   · simp only [ha, if_true]; exact sbal_refl z s _
   · simp only [ha, if_false, Bool.false_eq_true]
-    have hv := vecResize_bal z c s.m sl.o.v n
-    have hvs : ∀ st, SBal z s (Res.ok, setSlot s (vecResize c s.m sl.o.v n).1 i
-        { sl with o := ⟨st, (vecResize c s.m sl.o.v n).2⟩, rnd := sl.rnd && decide (0 < n) })
+    have hv := vecResize_bal z c s.m sl.o.v n b
+    have hvs : ∀ st, SBal z s (Res.ok, setSlot s (vecResize c s.m sl.o.v n b).1 i
+        { sl with o := ⟨st, (vecResize c s.m sl.o.v n b).2, sl.o.rcd⟩, rnd := sl.rnd && decide (0 < n) })
         (vecResizeA sl.o.v n) :=
       fun st => sbal_set z hs hi hg _ _ _ _ (by simpa [hg] using hv)
     have hls : SBal z s
-        (match (lockedResize c s.m sl.o.v n).2 with
-         | none => (Res.panic, ⟨(lockedResize c s.m sl.o.v n).1, s.slots⟩)
-         | some nv => (Res.ok, setSlot s (lockedResize c s.m sl.o.v n).1 i
-            { sl with o := ⟨.prot .locked .rw, nv⟩, rnd := sl.rnd && decide (0 < n) }))
+        (match (lockedResize c s.m sl.o.v sl.o.rcd n b).2 with
+         | none => (Res.panic, ⟨(lockedResize c s.m sl.o.v sl.o.rcd n b).1, s.slots⟩)
+         | some nv => (Res.ok, setSlot s (lockedResize c s.m sl.o.v sl.o.rcd n b).1 i
+            { sl with o := ⟨.prot .locked .rw, nv, (.locked, .rw)⟩, rnd := sl.rnd && decide (0 < n) }))
         (lockedResizeA n) := by
-      have hl := lockedResize_bal z c s.m sl.o.v n
-      cases hr : (lockedResize c s.m sl.o.v n).2 with
+      have hl := lockedResize_bal z c s.m sl.o.v sl.o.rcd n b
+      cases hr : (lockedResize c s.m sl.o.v sl.o.rcd n b).2 with
       | none =>
         rw [hr] at hl
         simp only []
-        have e : (⟨(lockedResize c s.m sl.o.v n).1, s.slots⟩ : State) =
-            setSlot s (lockedResize c s.m sl.o.v n).1 i sl := by
+        have e : (⟨(lockedResize c s.m sl.o.v sl.o.rcd n b).1, s.slots⟩ : State) =
+            setSlot s (lockedResize c s.m sl.o.v sl.o.rcd n b).1 i sl := by
           simp only [setSlot, hs, ← hi, set_split]
         rw [e]
         exact sbal_set z hs hi hg _ _ _ _ (by simpa [hg] using hl)
@@ -521,13 +563,204 @@ theorem sbal_opResize (s : State) (i n : Nat) :
       · exact hls
       · exact sbal_refl z s _
 
+theorem sbal_opZeroize (s : State) (i : Nat) : SBal z s (opZeroize c s i) [] := by
+  unfold opZeroize
+  apply sbal_withLive_nil
+  intro sl l1 l2 hs hi hg
+  split
+  · exact sbal_set_same z hs hi hg _ _ _ rfl hg rfl
+  · exact sbal_set_same z hs hi hg _ _ _ (by simp [sz]) hg rfl
+
+theorem cloneLockedObj_bal (m : Mach) (o : Obj) (ro : Bool) :
+    Bal z [] m (match (cloneLockedObj c m o ro).2 with
+      | some o' => capL o'.v.cap
+      | none => []) (cloneLockedObj c m o ro).1 (lockedResizeA o.v.len) := by
+  have h1 := lockedResize_bal z c m PVec.empty (.locked, .rw) o.v.len
+  have e0 : capL PVec.empty.cap = [] := rfl
+  rw [e0] at h1
+  cases hr : (lockedResize c m PVec.empty (.locked, .rw) o.v.len).2 with
+  | none =>
+    rw [hr] at h1
+    simp only [cloneLockedObj, hr]
+    exact h1
+  | some nv =>
+    rw [hr] at h1
+    simp only [cloneLockedObj, hr]
+    cases ro <;> exact h1
+
+/-- whether a type state has a `Clone` does not depend on the machine -/
+theorem cloneObj_none_indep {m m' : Mach} {o : Obj} (h : cloneObj c m' o = none) : cloneObj c m o = none := by
+  unfold cloneObj at h ⊢
+  split <;> simp_all
+
+/-- balance of `cloneObj` (when the state has a `Clone`) -/
+theorem cloneObj_bal (m : Mach) (o : Obj) (r : Mach × Option Obj) (hr : cloneObj c m o = some r) :
+    Bal z [] m (match r.2 with
+      | some o' => capL o'.v.cap
+      | none => []) r.1 (cloneObjA c o) := by
+  have hc := vecClone_bal z c m o.v
+  unfold cloneObj at hr
+  unfold cloneObjA
+  split at hr
+  · rename_i hst; simp only [Option.some.injEq] at hr; rw [← hr, hst]; exact hc
+  · rename_i hst; simp only [Option.some.injEq] at hr; rw [← hr, hst]; exact hc
+  · rename_i hst; simp only [Option.some.injEq] at hr; rw [← hr, hst]; exact hc
+  · rename_i hst
+    split at hr
+    · simp at hr
+    · rename_i ha
+      simp only [Option.some.injEq] at hr; rw [← hr, hst]
+      simp only [ha, if_false, Bool.false_eq_true]
+      exact cloneLockedObj_bal z c m o false
+  · rename_i hst
+    split at hr
+    · simp at hr
+    · rename_i ha
+      simp only [Option.some.injEq] at hr; rw [← hr, hst]
+      simp only [ha, if_false, Bool.false_eq_true]
+      exact cloneLockedObj_bal z c m o true
+  · simp at hr
+
+theorem sbal_opCloneFrom (s : State) (i j : Nat) :
+    SBal z s (opCloneFrom c s i j) (cloneFromA c s i j) := by
+  unfold opCloneFrom cloneFromA
+  by_cases hji : j = i
+  · simp only [hji, if_true]; exact sbal_refl z s _
+  simp only [hji, if_false]
+  cases hd : s.slots[i]? with
+  | none => exact sbal_refl z s _
+  | some d =>
+  cases hsrc : s.slots[j]? with
+  | none => exact sbal_refl z s _
+  | some src =>
+  simp only []
+  by_cases hcond : (d.gone || src.gone || decide (d.o.st ≠ src.o.st)) = true
+  · simp only [hcond, if_true]; exact sbal_refl z s _
+  simp only [hcond, if_false, Bool.false_eq_true]
+  have hg : d.gone = false := by
+    cases hh : d.gone
+    · rfl
+    · simp [hh] at hcond
+  obtain ⟨l1, l2, hs, hi⟩ := slot_split hd
+  by_cases hl : isLockedSt src.o.st = true
+  · simp only [hl, if_true]
+    cases hp : cloneObj c s.m src.o with
+    | none => exact sbal_refl z s _
+    | some r1 =>
+      have b1 := cloneObj_bal z c s.m src.o r1 hp
+      obtain ⟨m1, ot⟩ := r1
+      cases ot with
+      | none => exact sbal_mach z s _ _ _ b1
+      | some tmp =>
+        dsimp only at b1 ⊢
+        cases hq : cloneObj c m1 src.o with
+        | none => rw [cloneObj_none_indep c hq] at hp; simp at hp
+        | some r2 =>
+          have b2 := cloneObj_bal z c m1 src.o r2 hq
+          obtain ⟨m2, oo⟩ := r2
+          cases oo with
+          | none =>
+            dsimp only at b2 ⊢
+            have b3 := objDrop_bal z c m2 tmp
+            apply sbal_mach
+            unfold Bal at *
+            simp only [List.count_nil, List.count_append] at *
+            omega
+          | some o =>
+            dsimp only at b2 ⊢
+            have b3 := objDrop_bal z c m2 d.o
+            have b4 := objDrop_bal z c (objDrop c m2 d.o) tmp
+            apply sbal_set z hs hi hg
+            unfold Bal at *
+            simp only [List.count_nil, List.count_append, hg, Bool.false_eq_true, if_false] at *
+            omega
+  · simp only [hl, if_false, Bool.false_eq_true]
+    cases hp : cloneObj c s.m src.o with
+    | none =>
+      simp only []
+      have : SBal z s (Res.na, s) [] := sbal_refl z s _
+      unfold SBal at *
+      unfold cloneObj at hp
+      unfold cloneObjA
+      split at hp <;> simp_all
+    | some r1 =>
+      have b1 := cloneObj_bal z c s.m src.o r1 hp
+      obtain ⟨m1, oo⟩ := r1
+      cases oo with
+      | none => exact sbal_mach z s _ _ _ b1
+      | some o =>
+        dsimp only at b1 ⊢
+        have b3 := objDrop_bal z c m1 d.o
+        apply sbal_set z hs hi hg
+        unfold Bal at *
+        simp only [List.count_nil, hg, Bool.false_eq_true, if_false] at *
+        omega
+
+theorem sbal_opStackLock (s : State) : SBal z s (opStackLock c s) (if c.isArr then newBytesA c else []) := by
+  unfold opStackLock
+  by_cases ha : c.isArr = true
+  · simp only [ha, if_true]
+    exact sbal_doNewLocked z c s _ _ _ _ _ _ (newBytes_bal z c s.m)
+  · simp only [ha, if_false, Bool.false_eq_true]; exact sbal_refl z s _
+
+@[simp] theorem setV_cap (v : PVec) (i : Nat) (b : UInt8) : (setV v i b).cap = v.cap := rfl
+
+theorem seqFill_bal (b : UInt8) (k : Nat) : ∀ r : Mach × PVec,
+    Bal z (capL r.2.cap) r.1 (capL (seqFill c b k r).2.cap) (seqFill c b k r).1 (seqFillA c b k r) := by
+  induction k with
+  | zero => intro r; simp [seqFill, seqFillA, Bal]
+  | succ k ih =>
+    intro r
+    have h1 := vecResize_bal z c r.1 r.2 (r.2.len + 1)
+    have h2 := ih ((vecResize c r.1 r.2 (r.2.len + 1)).1, setV (vecResize c r.1 r.2 (r.2.len + 1)).2 r.2.len b)
+    simp only [seqFill, seqFillA]
+    unfold Bal at *
+    simp only [setV_cap, List.count_append] at *
+    omega
+
+theorem sbal_opSerde (s : State) (json : Bool) (n : Nat) :
+    SBal z s (opSerde c s json n) (opSerdeA c s json n) := by
+  unfold opSerde opSerdeA
+  by_cases hj : json = true
+  · simp only [hj, if_true]
+    by_cases ha : c.isArr = true
+    · simp only [ha, if_true]
+      have h1 := newBytes_bal z c s.m
+      have h2 := lockV_bal z c (newBytes c s.m).1 (newBytes c s.m).2 recNew
+      unfold doSerdeArrJson
+      by_cases h : (lockV c (newBytes c s.m).1 (newBytes c s.m).2 recNew).2 = true
+      · simp only [h, if_true] at h2 ⊢
+        by_cases hn : n = c.n
+        · simp only [hn, if_true]
+          apply sbal_push
+          unfold Bal at *
+          simp only [List.count_nil, writeV_cap] at *
+          omega
+        · simp only [hn, if_false]
+          have h3 := protDrop_bal z c (lockV c (newBytes c s.m).1 (newBytes c s.m).2 recNew).1
+            (writeV (newBytes c s.m).2 (List.replicate (min n c.n) 0x5a)) .locked .rw
+          apply sbal_mach
+          unfold Bal at *
+          simp only [List.count_nil, writeV_cap] at *
+          omega
+      · simp only [h, if_false, Bool.false_eq_true] at h2 ⊢
+        apply sbal_mach
+        unfold Bal at *
+        simp only [List.count_nil] at *
+        omega
+    · simp only [ha, if_false, Bool.false_eq_true]
+      have h1 := seqFill_bal z c 0x5a n (s.m, PVec.empty)
+      exact sbal_doNewLocked z c s _ _ _ _ _ _ h1
+  · simp only [hj, if_false, Bool.false_eq_true]
+    exact sbal_doFromSlice z c s n false
+
 end ops
 
 /-- **one token conserves blocks**: for every size `z`, (blocks of size `z` owned by live slots
 after) + (released by the token) = (owned before) + (logged before) + (allocated by the token) -/
 theorem stepCore_bal (z : Nat) (c : Cfg) (s : State) (t : Tok) :
-    SBal z s (stepCore c s t) (stepAllocs c s t) := by
-  unfold stepCore stepAllocs
+    SBal z s (stepCore c s t) (stepAllocsCore c s t) := by
+  unfold stepCore stepAllocsCore
   cases hop : t.op <;> simp only []
   case new => exact sbal_opNew z c s
   case fill b => exact sbal_opFill z s _ b
@@ -537,7 +770,7 @@ theorem stepCore_bal (z : Nat) (c : Cfg) (s : State) (t : Tok) :
   case rw => exact sbal_opProtect z c s _ _
   case na => exact sbal_opNa z c s _
   case clone => exact sbal_opClone z c s _
-  case resize n => exact sbal_opResize z c s _ n
+  case resize n b => exact sbal_opResize z c s _ n b
   case drop => exact sbal_opDrop z c s _
   case fsl n => exact sbal_doFromSlice z c s n false
   case fsro n => exact sbal_doFromSlice z c s n true
@@ -566,11 +799,16 @@ theorem stepCore_bal (z : Nat) (c : Cfg) (s : State) (t : Tok) :
     · simp only []; split <;> (split <;> exact ⟨_, rfl⟩)
   case wrap => exact sbal_refl z s _
   case bad => exact sbal_refl z s _
+  case zeroize => exact sbal_opZeroize z c s _
+  case clonefrom j => exact sbal_opCloneFrom z c s _ j
+  case panicdrop => exact sbal_opDrop z c s _
+  case stacklock => exact sbal_opStackLock z c s
+  case serde js n => exact sbal_opSerde z c s js n
 
 /-! ### a whole run plus the teardown -/
 
 theorem stepAllocs_resetRel (c : Cfg) (s : State) (t : Tok) :
-    stepAllocs c (resetRel s) t = stepAllocs c s t := rfl
+    stepAllocsCore c (resetRel s) t = stepAllocs c s t := rfl
 
 /-- one harness token (`step` = reset the log, then `stepCore`) -/
 theorem step_bal (z : Nat) (c : Cfg) (s : State) (t : Tok) :
@@ -674,13 +912,13 @@ theorem pagesA_append (P : Nat) (A B : List Nat) : pagesA P (A ++ B) = pagesA P 
 
 @[simp] theorem protDrop_brk (c : Cfg) (m : Mach) (v : PVec) (lm : LM) (pm : PM) :
     (protDrop c m v lm pm).k.brk = m.k.brk := by
-  unfold protDrop
+  unfold protDrop protZeroize protAtWipe
   by_cases h1 : pm = .rw <;> by_cases h2 : lm = .locked <;> simp [h1, h2]
 
 @[simp] theorem objDrop_brk (c : Cfg) (m : Mach) (o : Obj) : (objDrop c m o).k.brk = m.k.brk := by
   unfold objDrop; split <;> simp
 
-@[simp] theorem lockV_brk (c : Cfg) (m : Mach) (v : PVec) (pm : PM) :
+@[simp] theorem lockV_brk (c : Cfg) (m : Mach) (v : PVec) (pm : LM × PM) :
     (lockV c m v pm).1.k.brk = m.k.brk := by
   unfold lockV; simp only []; split <;> simp
 
@@ -688,8 +926,8 @@ section brk
 variable (c : Cfg) (hP : 0 < c.P)
 include hP
 
-theorem vecResize_brk (m : Mach) (v : PVec) (n : Nat) :
-    (vecResize c m v n).1.k.brk = m.k.brk + pagesA c.P (vecResizeA v n) := by
+theorem vecResize_brk (m : Mach) (v : PVec) (n : Nat) (b : UInt8 := 0) :
+    (vecResize c m v n b).1.k.brk = m.k.brk + pagesA c.P (vecResizeA v n) := by
   unfold vecResize vecResizeA
   by_cases h1 : n ≤ v.len
   · simp [h1]
@@ -710,11 +948,11 @@ theorem newBytes_brk (m : Mach) : (newBytes c m).1.k.brk = m.k.brk + pagesA c.P 
   · simp only [h, if_true]; exact vecResize_brk c hP m _ _
   · simp [h]
 
-theorem lockedResize_brk (m : Mach) (v : PVec) (n : Nat) :
-    (lockedResize c m v n).1.k.brk = m.k.brk + pagesA c.P (lockedResizeA n) := by
+theorem lockedResize_brk (m : Mach) (v : PVec) (rc : LM × PM) (n : Nat) (b : UInt8 := 0) :
+    (lockedResize c m v rc n b).1.k.brk = m.k.brk + pagesA c.P (lockedResizeA n) := by
   unfold lockedResize lockedResizeA
   simp only []
-  split <;> simp [vecResize_brk c hP]
+  split <;> simp [vecResize_brk c hP m PVec.empty n b]
 
 /-- the statement for one result -/
 def BrkOK (s : State) (r : Res × State) (A : List Nat) : Prop :=
@@ -745,7 +983,8 @@ theorem brk_withLive_nil (s : State) (i : Nat) (g : Res) (f : Slot → Res × St
   rwa [e] at this
 
 omit hP in
-theorem brk_doLock (s : State) (i : Nat) (sl : Slot) (pm : PM) : BrkOK c s (doLock c s i sl pm) [] := by
+theorem brk_doLock (s : State) (i : Nat) (sl : Slot) (rc : LM × PM) (pm : PM) :
+    BrkOK c s (doLock c s i sl rc pm) [] := by
   unfold doLock BrkOK; simp only []; split <;> simp [setSlot]
 
 omit hP in
@@ -759,7 +998,7 @@ theorem brk_doNewLocked (s : State) (m : Mach) (v : PVec) (src : Option Bytes) (
 
 theorem brk_doCloneLocked (s : State) (sl : Slot) (ro : Bool) :
     BrkOK c s (doCloneLocked c s sl ro) (lockedResizeA sl.o.v.len) := by
-  have h := lockedResize_brk c hP s.m PVec.empty sl.o.v.len
+  have h := lockedResize_brk c hP s.m PVec.empty (.locked, .rw) sl.o.v.len
   unfold doCloneLocked BrkOK; simp only []
   split
   · exact h
@@ -828,8 +1067,8 @@ theorem brk_opClone (s : State) (i : Nat) :
     · exact hl false
     · exact brk_refl c s _
 
-theorem brk_opResize (s : State) (i n : Nat) :
-    BrkOK c s (opResize c s i n) (liveA s i fun sl =>
+theorem brk_opResize (s : State) (i n : Nat) (b : UInt8 := 0) :
+    BrkOK c s (opResize c s i n b) (liveA s i fun sl =>
       if c.isArr then [] else
       match sl.o.st with
       | .plain => vecResizeA sl.o.v n
@@ -842,8 +1081,8 @@ theorem brk_opResize (s : State) (i n : Nat) :
   by_cases ha : c.isArr = true
   · simp only [ha, if_true]; exact brk_refl c s _
   · simp only [ha, if_false, Bool.false_eq_true]
-    have hv := vecResize_brk c hP s.m sl.o.v n
-    have hl := lockedResize_brk c hP s.m sl.o.v n
+    have hv := vecResize_brk c hP s.m sl.o.v n b
+    have hl := lockedResize_brk c hP s.m sl.o.v sl.o.rcd n b
     cases hst : sl.o.st with
     | plain => exact hv
     | prot lm pm =>
@@ -855,12 +1094,125 @@ theorem brk_opResize (s : State) (i n : Nat) :
       · simp only [BrkOK]; split <;> exact hl
       · exact brk_refl c s _
 
+theorem cloneObj_brk (m : Mach) (o : Obj) (r : Mach × Option Obj) (hr : cloneObj c m o = some r) :
+    r.1.k.brk = m.k.brk + pagesA c.P (cloneObjA c o) := by
+  have hc := vecClone_brk c hP m o.v
+  have hl : ∀ ro, (cloneLockedObj c m o ro).1.k.brk = m.k.brk + pagesA c.P (lockedResizeA o.v.len) := by
+    intro ro
+    have h := lockedResize_brk c hP m PVec.empty (.locked, .rw) o.v.len
+    unfold cloneLockedObj; simp only []
+    split
+    · exact h
+    · cases ro <;> simp [h]
+  unfold cloneObj at hr
+  unfold cloneObjA
+  split at hr
+  · rename_i hst; simp only [Option.some.injEq] at hr; rw [← hr, hst]; exact hc
+  · rename_i hst; simp only [Option.some.injEq] at hr; rw [← hr, hst]; exact hc
+  · rename_i hst; simp only [Option.some.injEq] at hr; rw [← hr, hst]; simpa using hc
+  · rename_i hst
+    split at hr
+    · simp at hr
+    · rename_i ha
+      simp only [Option.some.injEq] at hr; rw [← hr, hst]
+      simp only [ha, if_false, Bool.false_eq_true]
+      exact hl false
+  · rename_i hst
+    split at hr
+    · simp at hr
+    · rename_i ha
+      simp only [Option.some.injEq] at hr; rw [← hr, hst]
+      simp only [ha, if_false, Bool.false_eq_true]
+      exact hl true
+  · simp at hr
+
+theorem brk_opCloneFrom (s : State) (i j : Nat) :
+    BrkOK c s (opCloneFrom c s i j) (cloneFromA c s i j) := by
+  unfold opCloneFrom cloneFromA
+  by_cases hji : j = i
+  · simp only [hji, if_true]; exact brk_refl c s _
+  simp only [hji, if_false]
+  cases hd : s.slots[i]? with
+  | none => exact brk_refl c s _
+  | some d =>
+  cases hsrc : s.slots[j]? with
+  | none => exact brk_refl c s _
+  | some src =>
+  simp only []
+  by_cases hcond : (d.gone || src.gone || decide (d.o.st ≠ src.o.st)) = true
+  · simp only [hcond, if_true]; exact brk_refl c s _
+  simp only [hcond, if_false, Bool.false_eq_true]
+  by_cases hl : isLockedSt src.o.st = true
+  · simp only [hl, if_true]
+    cases hp : cloneObj c s.m src.o with
+    | none => exact brk_refl c s _
+    | some r1 =>
+      have b1 := cloneObj_brk c hP s.m src.o r1 hp
+      obtain ⟨m1, ot⟩ := r1
+      cases ot with
+      | none => exact b1
+      | some tmp =>
+        dsimp only at b1 ⊢
+        cases hq : cloneObj c m1 src.o with
+        | none => rw [cloneObj_none_indep c hq] at hp; simp at hp
+        | some r2 =>
+          have b2 := cloneObj_brk c hP m1 src.o r2 hq
+          obtain ⟨m2, oo⟩ := r2
+          cases oo with
+          | none =>
+            simp only [BrkOK, objDrop_brk, pagesA_append] at b2 ⊢
+            omega
+          | some o =>
+            simp only [BrkOK, setSlot, objDrop_brk, pagesA_append] at b2 ⊢
+            omega
+  · simp only [hl, if_false, Bool.false_eq_true]
+    cases hp : cloneObj c s.m src.o with
+    | none =>
+      simp only [BrkOK]
+      unfold cloneObj at hp
+      unfold cloneObjA
+      split at hp <;> simp_all
+    | some r1 =>
+      have b1 := cloneObj_brk c hP s.m src.o r1 hp
+      obtain ⟨m1, oo⟩ := r1
+      cases oo with
+      | none => exact b1
+      | some o =>
+        simp only [BrkOK, setSlot, objDrop_brk] at b1 ⊢
+        exact b1
+
+theorem seqFill_brk (b : UInt8) (k : Nat) : ∀ r : Mach × PVec,
+    (seqFill c b k r).1.k.brk = r.1.k.brk + pagesA c.P (seqFillA c b k r) := by
+  induction k with
+  | zero => intro r; simp [seqFill, seqFillA]
+  | succ k ih =>
+    intro r
+    simp only [seqFill, seqFillA, pagesA_append]
+    rw [ih, vecResize_brk c hP]; omega
+
+theorem brk_opSerde (s : State) (json : Bool) (n : Nat) :
+    BrkOK c s (opSerde c s json n) (opSerdeA c s json n) := by
+  unfold opSerde opSerdeA
+  by_cases hj : json = true
+  · simp only [hj, if_true]
+    by_cases ha : c.isArr = true
+    · simp only [ha, if_true]
+      have h1 := newBytes_brk c hP s.m
+      unfold doSerdeArrJson BrkOK; simp only []
+      split
+      · split <;> simp [push, h1]
+      · simp [h1]
+    · simp only [ha, if_false, Bool.false_eq_true]
+      exact brk_doNewLocked c s _ _ _ _ _ _ (seqFill_brk c hP 0x5a n (s.m, PVec.empty))
+  · simp only [hj, if_false, Bool.false_eq_true]
+    exact brk_doFromSlice c hP s n false
+
 /-- **tie of the ghost log to the model**: in every step the bump pointer — moved by `alloc` and by
 nothing else — advances by exactly the pages of the sizes listed in `stepAllocs` -/
 theorem stepCore_brk (s : State) (t : Tok) :
-    (stepCore c s t).2.m.k.brk = s.m.k.brk + pagesA c.P (stepAllocs c s t) := by
-  show BrkOK c s (stepCore c s t) (stepAllocs c s t)
-  unfold stepCore stepAllocs
+    (stepCore c s t).2.m.k.brk = s.m.k.brk + pagesA c.P (stepAllocsCore c s t) := by
+  show BrkOK c s (stepCore c s t) (stepAllocsCore c s t)
+  unfold stepCore stepAllocsCore
   cases hop : t.op <;> simp only []
   case new => exact brk_opNew c hP s
   case fill b =>
@@ -869,8 +1221,8 @@ theorem stepCore_brk (s : State) (t : Tok) :
   case lock =>
     unfold opLock; apply brk_withLive_nil; intro sl
     split
-    · exact brk_doLock c s _ _ _
-    · exact brk_doLock c s _ _ _
+    · exact brk_doLock c s _ _ _ _
+    · exact brk_doLock c s _ _ _ _
     · exact brk_refl c s _
   case unlock =>
     unfold opUnlock; apply brk_withLive_nil; intro sl
@@ -885,7 +1237,7 @@ theorem stepCore_brk (s : State) (t : Tok) :
     unfold opNa; apply brk_withLive_nil; intro sl
     split <;> simp [BrkOK, setSlot]
   case clone => exact brk_opClone c hP s _
-  case resize n => exact brk_opResize c hP s _ n
+  case resize n b => exact brk_opResize c hP s _ n b
   case drop =>
     unfold opDrop; apply brk_withLive_nil; intro sl
     simp [BrkOK, setSlot]
@@ -913,6 +1265,24 @@ theorem stepCore_brk (s : State) (t : Tok) :
     · simp only []; split <;> (split <;> exact brk_refl c s _)
   case wrap => exact brk_refl c s _
   case bad => exact brk_refl c s _
+  case zeroize =>
+    unfold opZeroize; apply brk_withLive_nil; intro sl
+    split
+    · simp [BrkOK, setSlot]
+    · simp only [BrkOK, setSlot, pagesA_nil, Nat.add_zero]
+      unfold protZeroize protAtWipe
+      by_cases h1 : sl.o.rcd.2 = .rw <;> by_cases h2 : sl.o.rcd.1 = .locked <;> simp [h1, h2]
+  case clonefrom j => exact brk_opCloneFrom c hP s _ j
+  case panicdrop =>
+    unfold opDrop; apply brk_withLive_nil; intro sl
+    simp [BrkOK, setSlot]
+  case stacklock =>
+    unfold opStackLock
+    by_cases ha : c.isArr = true
+    · simp only [ha, if_true]
+      exact brk_doNewLocked c s _ _ _ _ _ _ (newBytes_brk c hP s.m)
+    · simp only [ha, if_false, Bool.false_eq_true]; exact brk_refl c s _
+  case serde js n => exact brk_opSerde c hP s js n
 
 theorem step_brk (s : State) (t : Tok) :
     (step c s t).2.m.k.brk = s.m.k.brk + pagesA c.P (stepAllocs c s t) := by
